@@ -20,7 +20,7 @@ Oracles (independent of the model): (1) a marker Descriptor_t written at the pos
              (3) after a failed navigation cg_where and the next node-context call fail (or, for the enumerated
              early rejections, the position is exactly what it was); (4) ASan/UBSan.
 """
-import hashlib, json, os, re, shutil, sys
+import json, os, re, sys
 import vlib
 
 sys.path.insert(0, os.path.join(vlib.ROOT, "translators"))
@@ -35,40 +35,6 @@ ORACLE = ("marker Descriptor_t written at the position is found by an independen
 
 def pregen():
     c11_goto.write_gen(repo=vlib.REPO)
-
-
-# ----------------------------------------------------------------------------------------------- engine build
-def build_engine():
-    """vlib.build_modelrun("c11"); ocaml/zutil.ml annotates with the bare type name `string`, which the extracted
-    Coq string type shadows -- until zutil.ml is changed (see notes/C11.md) fall back to the same build with a
-    patched private copy of zutil.ml."""
-    try:
-        return vlib.build_modelrun("c11")
-    except vlib.Infra as e:
-        if "zutil" not in str(e):
-            raise
-    d = os.path.join(vlib.BUILD, "ocaml", "c11")
-    os.makedirs(d, exist_ok=True)
-    ex = os.path.join(vlib.COQ, "extracted", "c11")
-    srcs = [os.path.join(ex, "model.mli"), os.path.join(ex, "model.ml"), os.path.join(vlib.ROOT, "ocaml", "eng_c11.ml")]
-    exe = os.path.join(d, "modelrun")
-    with vlib.Lock("ocaml_c11"):
-        stamp = hashlib.sha1(b"".join(open(x, "rb").read() for x in srcs) + b"private").hexdigest()
-        sf = os.path.join(d, "stamp")
-        if os.path.exists(exe) and os.path.exists(sf) and open(sf).read() == stamp:
-            return exe
-        for x in srcs:
-            shutil.copy(x, d)
-        z = open(os.path.join(vlib.ROOT, "ocaml", "zutil.ml")).read()
-        z = re.sub(r"\bstring\b", "Stdlib.String.t", z)
-        open(os.path.join(d, "zutil.ml"), "w").write(z)
-        open(os.path.join(d, "main.ml"), "w").write("let () = Eng_c11.run ()\n")
-        rc, out = vlib.sh(["ocamlfind", "ocamlopt", "-w", "-a", "-o", "modelrun", "model.mli", "model.ml", "zutil.ml",
-                           "eng_c11.ml", "main.ml"], cwd=d)
-        if rc != 0:
-            raise vlib.Infra("modelrun for c11 does not build:\n" + out[-3000:])
-        open(sf, "w").write(stamp)
-    return exe
 
 
 # ----------------------------------------------------------------------------------------------- the generator's own tree
@@ -324,8 +290,7 @@ class Gen:
                 self.ctx_children(g, 2)
             for m in rng.sample(MODELS, rng.randint(0, 4 if not self.big else 10)):
                 mm, = self.at(e, "model %s" % m, [(e, m, m[:-2], None)])
-                if m != "TurbulenceClosure_t":       # cgi_user_data_address does not know this label (notes/C11.md)
-                    self.ctx_children(mm, 2)
+                self.ctx_children(mm, 2)
             self.ctx_children(e, 1)
         if rng.random() < 0.4:
             r, = self.at(n, "rotating", [(n, "RotatingCoordinates_t", "RotatingCoordinates", None)])
@@ -616,19 +581,10 @@ class Gen:
                 out.append("%s %d" % (l, i))
         return " ".join(out)
 
-    UNNAMED = ("BCProperty_t", "WallFunction_t", "Area_t", "GridConnectivityProperty_t", "Periodic_t", "AverageInterface_t")
-
     def known_key(self, n, named):
-        """canonical key of the known defect a by-name spelling of n's path runs into (notes/C11.md), if any"""
-        names = set(named)
-        x = n
-        while x.parent is not None:
-            if x.name in names:
-                if x.label == "IndexArray_t" and x.name == "PointRange":
-                    return "goto-by-name:BC_t:IndexRange_t"
-                if self.reopened and x.label in self.UNNAMED:
-                    return "goto-by-name-after-reopen:unnamed-single"
-            x = x.parent
+        """canonical key of a LISTED defect (known: line of KNOWN_FINDINGS.txt) that a by-name spelling of n's path runs
+        into.  None at present: the four defects found while building this check were repaired in /repo (675ddb4, 8893bef,
+        33d2c7d, defadad); their witnesses are in corpus/C11/ and a regression is an ordinary VIOLATION."""
         return None
 
     def navigate(self, n, mode):
@@ -871,28 +827,6 @@ def gen_scenario(rng, tab, big, fname):
 
 
 # ----------------------------------------------------------------------------------------------- running and judging
-def materialize(g_script, tree_snapshots):
-    pass
-
-
-def run_scenario(exe, g, backend, work, tag):
-    """-> (impl lines, outcome, model lines, commands)"""
-    # the mirror lines are produced lazily while generating (the tree mutates), so generation stored "@mirror"
-    # placeholders together with a snapshot
-    cmds = ["ft %s" % backend] + [c for c, _ in g.script]
-    return cmds
-
-
-class Runner:
-    def __init__(self, exe, work):
-        self.exe, self.work = exe, work
-
-    def run(self, lines_impl, lines_model):
-        il, outcome = vlib.run_impl(self.exe, "\n".join(lines_impl) + "\n", cwd=self.work, timeout=600)
-        ml = vlib.run_model("c11", "\n".join(lines_model) + "\n")
-        return il, outcome, ml
-
-
 def judge(script, il, outcome, ml_by_cmd, known=None):
     """oracle (independent of the model) + correspondence.  script: [(line, exp)] without placeholders for the impl.
     -> (failures, divergences); each a dict naming the command index"""
@@ -1009,10 +943,6 @@ def run_one(exe, g, backend, work):
     return fails, divs, impl, il, outcome, known
 
 
-def attach_mirrors(g):
-    pass
-
-
 # generation must snapshot the mirror at each "@mirror": wrap Gen.emit
 _orig_emit = Gen.emit
 def _emit(self, line, **exp):
@@ -1020,11 +950,6 @@ def _emit(self, line, **exp):
         exp["lines"] = self.tree.mirror_lines()
     _orig_emit(self, line, **exp)
 Gen.emit = _emit
-
-
-def shrink_impl(exe, impl, il_ref, fail, work):
-    """a small replay script: keep the build prefix (everything up to the first navigation test) and the failing tail"""
-    return impl[: fail["at"] + 1]
 
 
 def engine_tables():
@@ -1037,11 +962,6 @@ def engine_tables():
         elif w[0] in res:
             res[w[0]].append(" ".join(w[1:]))
     return res
-
-
-def targeted_scripts(rng, tab, bad_arms, n):
-    """scenarios whose trees are dense around the arms the table predicate rejects (a broken row must be exercised)"""
-    return n
 
 
 def run(ck):
@@ -1060,7 +980,7 @@ def run(ck):
     tab = Tables(model)
     tables = None
     try:
-        build_engine()
+        vlib.build_modelrun("c11")
         tables = engine_tables()
     except vlib.Infra as e:
         if not broken:
